@@ -44,13 +44,13 @@ pub assume_specification<B, C> [std::ops::ControlFlow::<B, C>::is_break] (c: &st
 // Vec<u8>::extend(&*slice) / Vec<u8>::extend([u8; N]) (R6): append, nothing else.
 #[verifier::external_body]
 pub fn vec_extend_slice(v: &mut Vec<u8>, s: &[u8])
-    ensures final(v)@ == old(v)@ + s@,
+    ensures final(v)@ == old(v)@ + s@, final(v)@.len() <= usize::MAX,
 {
     v.extend(s)
 }
 #[verifier::external_body]
 pub fn vec_extend_array<const N: usize>(v: &mut Vec<u8>, a: [u8; N])
-    ensures final(v)@ == old(v)@ + a@,
+    ensures final(v)@ == old(v)@ + a@, final(v)@.len() <= usize::MAX, a@.len() == N,
 {
     v.extend(a)
 }
@@ -71,4 +71,17 @@ pub fn slice_write(buf: &mut &mut [u8], src: &[u8]) -> (r: usize)
 {
     use std::io::Write;
     buf.write(src).expect("writing into &mut [u8] should always succeed")
+}
+
+// `v[lo..hi].try_into().expect(..)` (slice -> [u8; N]) (R6): panics iff the range is out of bounds
+// or its length differs from N.
+#[verifier::external_body]
+pub fn vec_to_array<const N: usize>(v: &Vec<u8>, lo: usize, hi: usize) -> (r: [u8; N])
+    requires
+        lo <= hi <= v@.len(),
+        hi - lo == N,
+    ensures
+        r@ == v@.subrange(lo as int, hi as int),
+{
+    v[lo..hi].try_into().expect("slice should be same length as array")
 }
